@@ -41,8 +41,10 @@ def recase(s, rng):
 
 # --------------------------------------------------------------------------- generation of repository specs
 
-def gen_schema(rng):
-    """association classes: [name, super|None, [[role, refclass as written, iskey]…]]"""
+def gen_schema(rng, idkeyed=None):
+    """association classes: [name, super|None, [[role, refclass as written, iskey]…]].
+    With probability `idkeyed` a base class gets no key reference at all: it is then declared with
+    `[Key] string InstanceID` (see id_keyed) and every end can be NULL or re-pointed by ModifyInstance."""
     node_names = [n for n, _ in NODE_CLASSES]
     assocs = []
     nbase = rng.randint(1, 4)
@@ -59,6 +61,9 @@ def gen_schema(rng):
             if rng.random() < 0.2:
                 r = recase(r, rng)
             refs.append([r, rc, iskey])
+        if idkeyed is not None and rng.random() < idkeyed:
+            for ref in refs:
+                ref[2] = False
         assocs.append([name, None, refs])
         nsub = rng.choice([0, 0, 1, 1, 2])
         parent = name
@@ -78,6 +83,8 @@ def schema_mof(assocs):
         out.append('class %s%s { %s };' % (n, (' : ' + s) if s else '', '' if s else '[Key] string id;'))
     for name, sup, refs in assocs:
         body = ' '.join('%s%s REF %s;' % ('[Key] ' if k else '', rc, r) for r, rc, k in refs)
+        if id_keyed(refs):
+            body = '[Key] string InstanceID; ' + body
         if not refs:
             body = 'string note_%s;' % name
         out.append('[Association] class %s%s { %s };' % (name, (' : ' + sup) if sup else '', body))
@@ -98,6 +105,11 @@ def node_subtree(cls, node_classes=None):
     return res
 
 
+def id_keyed(refs):
+    """the class has no key reference: its key is the string property InstanceID"""
+    return bool(refs) and not any(k for _, _, k in refs)
+
+
 def assoc_refs(assocs, name):
     """effective reference declarations of association class `name` (inherited from its base)"""
     d = {a[0].lower(): a for a in assocs}
@@ -107,8 +119,8 @@ def assoc_refs(assocs, name):
     return a[2]
 
 
-def gen_spec(rng, thorough):
-    assocs = gen_schema(rng)
+def gen_spec(rng, thorough, idkeyed=0.2):
+    assocs = gen_schema(rng, idkeyed)
     nns = rng.choice([1, 2, 2, 3])
     nss = NSS[:nns]
     nnodes = rng.choice([1, 3, 5, 8, 8, 12, 12] + ([20, 30] if thorough else [16]))
@@ -205,6 +217,9 @@ def build(spec):
             props.append(pywbem.CIMProperty(role, val, type='reference', reference_class=rc))
             if iskey:
                 keyb[role] = val
+        if id_keyed(refs):
+            props.append(pywbem.CIMProperty('InstanceID', 'L%d' % ln['seed']))
+            keyb['InstanceID'] = 'L%d' % ln['seed']
         inst = pywbem.CIMInstance(ln['cls'], properties=props)
         if mode == 'create':
             try:
@@ -237,6 +252,9 @@ def build(spec):
             props.append(pywbem.CIMProperty(role, val, type='reference', reference_class=rc))
             if iskey:
                 keyb[role] = val
+        if id_keyed(refs):
+            props.append(pywbem.CIMProperty('InstanceID', 'dangling_ns'))
+            keyb['InstanceID'] = 'dangling_ns'
         inst = pywbem.CIMInstance(a[0], properties=props)
         inst.path = pywbem.CIMInstanceName(a[0], keybindings=keyb, namespace=nd[0])
         try:
@@ -991,10 +1009,13 @@ def gen_history_spec(rng, thorough):
       ['class', via, name, super, is_assoc]      new subclass through CreateClass / add_cimobjects / compile_mof_string
       ['node', ns, cls, id]                      CreateInstance of a node
       ['link', cls, ns, {role: node index}]      CreateInstance of an association instance
+      ['modify', k, {role: node index}, mode]   ModifyInstance of the k-th association instance created by the history:
+                                                 re-point non-key ends; mode 'pl' = only these properties + PropertyList,
+                                                 'partial' = only these properties, no PropertyList, 'full' = all properties
       ['del_link', k]                            DeleteInstance of the k-th association instance created by the history
       ['del_class', name]                        DeleteClass of a class added by the history (with its instances)"""
     for _ in range(50):
-        spec = gen_spec(rng, thorough)
+        spec = gen_spec(rng, thorough, idkeyed=0.5)
         if 3 <= len(spec['nodes']) <= 10 and 2 <= len(spec['links']) <= 12:
             break
     spec['anomaly'] = None
@@ -1005,6 +1026,7 @@ def gen_history_spec(rng, thorough):
     assocs = [list(a) for a in spec['assocs']]
     nodes = [list(n) for n in spec['nodes']]
     new_assoc, nlinks, history = [], 0, []
+    glinks = []          # [cls, ns, ends] of the links created by the history, as they should be now
     for ph in range(rng.choice([2, 2, 3])):
         steps = []
         for _ in range(rng.choice([1, 2, 2, 3])):
@@ -1041,7 +1063,31 @@ def gen_history_spec(rng, thorough):
                     (rng.choice(local) if (local and r < 0.85) else rng.choice(cands))
             if ends:
                 steps.append(['link', a[0], ns, ends])
+                glinks.append([a[0], ns, dict(ends)])
                 nlinks += 1
+        # ModifyInstance: re-point non-key ends, mostly ONE end that stays in / comes into the namespace of the request
+        for _ in range(rng.choice([0, 1, 2, 3])):
+            alive = set(a_[0] for a_ in assocs)
+            cand = [k for k, (cls, ns, ends) in enumerate(glinks)
+                    if cls in alive and any(not iskey for _, _, iskey in assoc_refs(assocs, cls))]
+            if not cand:
+                break
+            cross = [k for k in cand if any(nodes[i][0] != glinks[k][1] for i in glinks[k][2].values())]
+            k = rng.choice(cross) if (cross and rng.random() < 0.7) else rng.choice(cand)
+            cls, ns, ends = glinks[k]
+            nonkey = [(role, rc) for role, rc, iskey in assoc_refs(assocs, cls) if not iskey]
+            rng.shuffle(nonkey)
+            change = {}
+            for role, rc in nonkey[:1 if rng.random() < 0.7 else 2]:
+                cands = [i for i, nd in enumerate(nodes) if nd[1] in node_subtree(rc, node_classes) and i != ends[role]]
+                local = [i for i in cands if nodes[i][0] == ns]
+                if local and rng.random() < 0.75:
+                    change[role] = rng.choice(local)
+                elif cands:
+                    change[role] = rng.choice(cands)
+            if change:
+                steps.append(['modify', k, change, rng.choice(['pl', 'pl', 'partial', 'full'])])
+                ends.update(change)
         if nlinks and rng.random() < 0.4:
             steps.append(['del_link', rng.randrange(nlinks)])
         if new_assoc and rng.random() < 0.15:
@@ -1061,6 +1107,7 @@ class HistoryState:
         self.nodes = [list(n) for n in spec['nodes']]
         self.assocs = [list(a) for a in spec['assocs']]
         self.link_paths = []
+        self.link_info = []      # [cls, ns, ends] per history link
         self.new_nodes = []
 
 
@@ -1096,9 +1143,43 @@ def apply_step(conn, spec, state, st, count):
             refs = assoc_refs(state.assocs, cls)
             props = [pywbem.CIMProperty(role, node_path(state.nodes[ends[role]]), type='reference', reference_class=rc)
                      for role, rc, iskey in refs]
+            if id_keyed(refs):
+                props.append(pywbem.CIMProperty('InstanceID', 'h%d' % len(state.link_paths)))
             state.link_paths.append(None)
+            state.link_info.append([cls, ns, dict(ends)])
             state.link_paths[-1] = conn.CreateInstance(pywbem.CIMInstance(cls, properties=props), namespace=ns)
             count('history:link')
+        elif kind == 'modify':
+            _, k, change, mode = st
+            p = state.link_paths[k] if k < len(state.link_paths) else None
+            if p is not None:
+                cls, ns, ends = state.link_info[k]
+                refs = assoc_refs(state.assocs, cls)
+                rcs = {role: rc for role, rc, _ in refs}
+                # the ends before and after are sources of the next query phase, in their own namespaces
+                for role in change:
+                    for i in (ends.get(role), change[role]):
+                        if i is not None and state.nodes[i] not in state.new_nodes:
+                            state.new_nodes.append(state.nodes[i])
+                for i in ends.values():
+                    if i is not None and state.nodes[i] not in state.new_nodes:
+                        state.new_nodes.append(state.nodes[i])
+                newprops = [pywbem.CIMProperty(role, node_path(state.nodes[i]), type='reference',
+                                               reference_class=rcs[role]) for role, i in change.items()]
+                if mode == 'full':
+                    inst = conn.GetInstance(p)
+                    for np_ in newprops:
+                        inst.properties[np_.name] = np_
+                    inst.path = p
+                    conn.ModifyInstance(inst)
+                else:
+                    inst = pywbem.CIMInstance(cls, properties=newprops, path=p)
+                    if mode == 'pl':
+                        conn.ModifyInstance(inst, PropertyList=[np_.name for np_ in newprops])
+                    else:
+                        conn.ModifyInstance(inst)
+                ends.update(change)
+                count('history:modify:' + mode)
         elif kind == 'del_link':
             p = state.link_paths[st[1]] if st[1] < len(state.link_paths) else None
             if p is not None:
@@ -1200,7 +1281,8 @@ def run(run):
                 '(repository, source, operation pair, filter tuple); non-trivial = non-empty result.  Second stream: '
                 'histories on ONE connection - a query set with active class filters (ancestor names), then 2-3 phases of '
                 'growth (new association / node subclasses through CreateClass, add_cimobjects or compile_mof_string, new nodes '
-                'and association instances of old and new classes, DeleteInstance, DeleteClass), after each phase the SAME '
+                'and association instances of old and new classes, ModifyInstance re-pointing non-key ends of (cross-namespace) '
+                'association instances with PropertyList / partial / full instances, DeleteInstance, DeleteClass), after each phase the SAME '
                 'queries again plus queries for the new nodes, each judged against the raw stores of that moment')
     run.assumptions += [
         'keybinding equality of instance paths is decided by the real CIMInstanceName/NocaseDict equality in the harness '
